@@ -302,3 +302,24 @@ def pto(r, idx, fate_vec=None, fate_map=None):
     steps.append({"do": "run_until", "what": "apps", "max_us": 40000000})
     steps.append({"do": "run", "us": 500000})
     return {"cfg": cfg, "steps": steps, "tag": {"family": "c13-pto", "idx": idx, "fvec": fate_vec}}
+
+
+def dgfit(r, idx):
+    """Datagrams of every length just below the largest that fits, sent while acknowledgements for a
+    transfer in the other direction are due: whether the frame fits next to the ACK frame (5-12
+    bytes, depending on packet numbers and ranges) is a matter of one byte."""
+    mtu = r.choice([1200, 1452])
+    cfg = {"seed": r.randrange(1 << 30), "link_mtu": 1500,
+           "server": {"idle_ms": 30000, "mtud": False, "initial_mtu": mtu, "cc": r.choice(["fixed:12000", "newreno"])},
+           "client": {"idle_ms": 30000, "mtud": False, "initial_mtu": mtu}}
+    w = r.choice([0, 1])        # who sends the bulk; the other one sends the datagrams
+    steps = [{"do": "connect", "n": 1}, {"do": "run_until", "what": "connected", "max_us": 5000000},
+             {"do": "run", "us": 200000},
+             {"do": "app", "n": w, "c": 0, "streams": [{"dir": 1, "size": 400000, "chunk": 1 << 20, "finish": True}]}]
+    top = 1162 if mtu == 1200 else 1414
+    for _ in range(40):
+        steps.append({"do": "run", "us": r.choice([500, 2000, 7000])})
+        steps.append({"do": "op", "n": 1 - w, "c": 0,
+                      "op": {"op": "send_dgram", "drop": True, "did": r.randrange(60000), "len": top - r.randrange(0, 16)}})
+    steps.append({"do": "run", "us": 2000000})
+    return {"cfg": cfg, "steps": steps, "tag": {"family": "c13-dgfit", "idx": idx}}
